@@ -7,8 +7,11 @@ package verifrt
 
 import (
 	"bytes"
+	"crypto/rand"
+	"io"
 	"reflect"
 	"runtime/metrics"
+	"sync"
 	"sync/atomic"
 	"time"
 )
@@ -405,3 +408,67 @@ func AfterFunc(d time.Duration, f func()) *time.Timer {
 	}
 	return time.AfterFunc(d, f)
 }
+
+// ---------------------------------------------------------------- random source seam
+//
+// The instrumented library imports this package, so this init runs BEFORE the library's own package-level
+// initialisation: the process-wide crypto/rand.Reader the library can ever see - including a copy it captures "before
+// anything can replace it" - is the seam below.  By default the seam passes the operating system's source through; a
+// check substitutes a stream by SetRandom, WITHOUT changing the identity of rand.Reader, so code that behaves
+// differently for "the stock reader" and "a replaced reader" runs its stock-reader path on explored streams.
+
+type randSeam struct{ under atomic.Pointer[io.Reader] }
+
+func (s *randSeam) Read(p []byte) (n int, err error) {
+	if u := s.under.Load(); u != nil {
+		n, err = (*u).Read(p)
+	} else {
+		n, err = osRandom.Read(p)
+	}
+	// everything the source ever delivered is on record: a library that reads ahead may hand out, during an explored
+	// history, bytes it fetched before the history began
+	seamMu.Lock()
+	if len(seamLog)+n <= seamLogMax {
+		seamLog = append(seamLog, p[:n]...)
+	} else {
+		seamOverflow = true
+	}
+	seamMu.Unlock()
+	return n, err
+}
+
+const seamLogMax = 64 << 20
+
+var (
+	seamMu       sync.Mutex
+	seamLog      []byte
+	seamOverflow bool
+)
+
+// SeamLog returns everything the random source has delivered through the seam since the process started (append-only:
+// earlier indexes stay valid) and whether the record is complete.
+func SeamLog() ([]byte, bool) {
+	seamMu.Lock()
+	defer seamMu.Unlock()
+	return seamLog, !seamOverflow
+}
+
+var osRandom io.Reader
+var theSeam = &randSeam{}
+
+func init() {
+	osRandom = rand.Reader
+	rand.Reader = theSeam
+}
+
+// SetRandom makes r what the seam delivers (nil: the operating system's source again).
+func SetRandom(r io.Reader) {
+	if r == nil {
+		theSeam.under.Store(nil)
+		return
+	}
+	theSeam.under.Store(&r)
+}
+
+// SeamInstalled reports whether crypto/rand.Reader still is the seam (nothing replaced it since start-up).
+func SeamInstalled() bool { return rand.Reader == io.Reader(theSeam) }
